@@ -209,6 +209,10 @@ fn key_transcript<V: Fv>(ctx: &Ctx, key_idx: usize, m_sigs: usize, rep: &mut Rep
 }
 
 pub fn transcripts(ctx: &Ctx, rep: &mut Report) {
+    if !crate::pool::keygen_responds::<F512>() {
+        rep.inconclusive("key generation did not return within 180 s (canary); reported as inconclusive, never as a violation".into());
+        return;
+    }
     let m512 = ctx.sz(3000, 30_000);
     let m1024 = ctx.sz(1500, 30_000);
     for k in 0..ctx.sz(2, 6) {
